@@ -205,6 +205,7 @@ IndependentJobsRunEventually == <>[](\A j \in Jobs : (~FailedAncestor(j)) => w[j
 DependentsNeverRun == \A j \in Jobs : FailedAncestor(j) => w[j] = "idle"
 ErrorNamesEveryFailedJob == (loop = "error") => (errors = fails \cap futured)
 FailureIsReported == (Terminated /\ fails \cap futured # {} /\ pending = {}) => loop # "done"
+ErrorOnlyIfFailure == (loop = "error") => (fails \cap futured # {})      \* an error outcome is never spurious
 NeverCrashes == loop # "crashed"
 (* C18 *)
 Terminates == <>Terminated
